@@ -186,13 +186,18 @@ class Dispatcher:
             return
         if isinstance(st, ast.AnnAssign) and st.value is None:
             return
+        if isinstance(st, ast.Assign) and len(st.targets) == 1 and isinstance(st.targets[0], ast.Tuple) and isinstance(st.value, ast.Tuple) \
+                and len(st.targets[0].elts) == len(st.value.elts):
+            # (m._aa, m._ab, ...) = (<expr>, <expr>, ...): all right-hand sides first, then the stores
+            vals = [self.ev(v, env) for v in st.value.elts]
+            for t, v in zip(st.targets[0].elts, vals):
+                self.store(t, v, env, st)
+            return
         if isinstance(st, (ast.Assign, ast.AnnAssign)):
             val = self.ev(st.value, env)  # type: ignore[arg-type]
             tgts = st.targets if isinstance(st, ast.Assign) else [st.target]
             for t in tgts:
-                if not isinstance(t, ast.Name):
-                    raise AnalysisError(f'{self.mod.relpath}:{st.lineno}: dispatch arm assigns to `{ast.unparse(t)}`')
-                env[t.id] = val
+                self.store(t, val, env, st)
             return
         if isinstance(st, ast.AugAssign) and isinstance(st.op, ast.MatMult) and isinstance(st.target, ast.Name):
             left = env[st.target.id]
@@ -212,6 +217,20 @@ class Dispatcher:
         if isinstance(st, ast.Pass):
             return
         raise AnalysisError(f'{self.mod.relpath}:{st.lineno}: statement not modelled in dispatch arm: `{ast.unparse(st)[:80]}`')
+
+    def store(self, t: ast.AST, val: Any, env: Dict[str, Any], st: ast.stmt) -> None:
+        if isinstance(t, ast.Name):
+            env[t.id] = val
+            return
+        if isinstance(t, ast.Attribute) and t.attr.startswith('_') and t.attr[1:] in SLOTS and isinstance(val, Poly):
+            base = self.ev(t.value, env)
+            if isinstance(base, Obj) and base.kind == 'mat':
+                base.data = dict(base.data)
+                base.data[t.attr[1:]] = val
+                if 'entry store' not in base.mutations:
+                    base.mutations.append('entry store')
+                return
+        raise AnalysisError(f'{self.mod.relpath}:{st.lineno}: dispatch arm assigns to `{ast.unparse(t)}`')
 
     def truth(self, test: ast.AST, env: Dict[str, Any]) -> bool:
         if isinstance(test, ast.BoolOp):
@@ -254,6 +273,16 @@ class Dispatcher:
             return res
         if isinstance(n, ast.Call):
             return self.call(n, env)
+        if isinstance(n, ast.BinOp) and isinstance(n.op, (ast.Add, ast.Sub, ast.Mult)):
+            a, b = self.ev(n.left, env), self.ev(n.right, env)
+            if isinstance(a, Poly) and isinstance(b, Poly):
+                return a + b if isinstance(n.op, ast.Add) else (a - b if isinstance(n.op, ast.Sub) else a * b)
+        if isinstance(n, ast.UnaryOp) and isinstance(n.op, ast.USub):
+            a = self.ev(n.operand, env)
+            if isinstance(a, Poly):
+                return -a
+        if isinstance(n, ast.Constant) and isinstance(n.value, (int, float)) and not isinstance(n.value, bool) and float(n.value).is_integer():
+            return Poly.const(int(n.value))
         raise AnalysisError(f'{self.mod.relpath}:{getattr(n, "lineno", 0)}: expression not modelled in dispatch arm: `{ast.unparse(n)[:80]}`')
 
     def call(self, n: ast.Call, env: Dict[str, Any]) -> Any:
@@ -309,8 +338,8 @@ class Dispatcher:
                     raise AnalysisError(f'{self.mod.relpath}:{n.lineno}: method {recv.cls}.{meth} not found')
                 if meth == 'copy':
                     return self.copy_of(recv, r[1])
-                if meth in ('_rotate_angle', '__matmul__', '__rmatmul__', '__imatmul__'):
-                    return self.call_method(r[1], recv, args)
+                if meth in ('_rotate_angle', '__matmul__', '__rmatmul__', '__imatmul__') or (meth.startswith('_') and not meth.startswith('__')):
+                    return self.call_method(r[1], recv, args)       # the operators and any private helper they share are interpreted alike
                 raise AnalysisError(f'{self.mod.relpath}:{n.lineno}: method call not modelled in dispatch arm: `{ast.unparse(n)}`')
         raise AnalysisError(f'{self.mod.relpath}:{n.lineno}: call not modelled in dispatch arm: `{ast.unparse(n)[:80]}`')
 
